@@ -6,16 +6,20 @@ tokens, simplify strings and options).  Bounded by an execution budget.
 """
 
 
-def minimise(prop, scenario, sig, sim, budget=250):
+def minimise(prop, scenario, sig, sim, budget=250, wall=90):
+    import time
+    t0 = time.monotonic()
     cur = scenario
     execs = 0
     improved = True
     rounds = 0
-    while improved and execs < budget:
+    if '/hang' in sig:
+        return {'scenario': cur, 'execs': 0, 'rounds': 0}      # every execution costs an alarm
+    while improved and execs < budget and time.monotonic() - t0 < wall:
         improved = False
         rounds += 1
         for cand in prop.shrink_candidates(cur):
-            if execs >= budget:
+            if execs >= budget or time.monotonic() - t0 >= wall:
                 break
             execs += 1
             try:
